@@ -106,7 +106,7 @@ def run(tier):
         for placement, debris, off in variants:
             budget = [min(g.count - 3, 400)]
             tree = rand_tree(r, 0, g.bpc, budget)
-            b = specfat.Builder(g, r, placement=placement, debris=debris, fat_garbage=debris)
+            b = specfat.Builder(g, r, placement=placement, debris=debris, fat_garbage=debris, lead05=True, res1_garbage=True)
             try:
                 img = b.build(tree, label="VERIFLABEL" if debris else None)
             except MemoryError:
